@@ -12,7 +12,7 @@ EXTENDS MapModel
 Letters == (65..90) \cup (97..122) \cup {36, 95, 233, 15247, 119987}
 IdStart(c) == c \in Letters
 IdContinue(c) == c \in Letters \/ c \in 48..57 \/ c \in {8204, 8205}
-Blank(c) == c \in {32, 9, 10, 11, 12, 13, 160, 8232}
+Blank(c) == c \in {9, 10, 11, 12, 13, 32, 133, 160, 5760, 8232, 8233, 8239, 8287, 12288} \/ c \in 8192..8202   \* Unicode White_Space
 U16w(c) == IF c >= 65536 THEN 2 ELSE 1
 FUNCTION == <<102, 117, 110, 99, 116, 105, 111, 110>>
 
